@@ -1,12 +1,13 @@
 ---------------------------- MODULE Conc_Trace ----------------------------
 EXTENDS Conc_L0, Json, IOUtils
 Rec == ndJsonDeserialize(IOEnv.TRACE)
-VARIABLES l, viol
-vars == <<l, viol>>
-TInit == l = 1 /\ viol = {}
+VARIABLES l, prev, viol
+vars == <<l, prev, viol>>
+TInit == l = 1 /\ prev = {} /\ viol = {}
 TNext ==
   /\ l <= Len(Rec)
-  /\ viol' = viol \cup {[line |-> l, tid |-> Rec[l].tid, p |-> x[1], m |-> x[2], d |-> x[3]] : x \in Check(Rec[l])}
+  /\ viol' = viol \cup {[line |-> l, tid |-> Rec[l].tid, p |-> x[1], m |-> x[2], d |-> x[3]] : x \in Check(Rec[l], prev)}
+  /\ prev' = WantAlive(Rec[l], prev)
   /\ l' = l + 1
 TSpec == TInit /\ [][TNext]_vars
 Verdict == (l = Len(Rec) + 1) => PrintT(<<"VERDICT", ToJson([n |-> Len(Rec), viol |-> viol])>>)
